@@ -11,6 +11,7 @@ use std::sync::Arc;
 /// 2025-06-01T12:00:00Z in ns: an arbitrary fixed epoch (mid-hour so hour arithmetic is visible).
 pub const EPOCH_NS: i64 = 1_748_779_200_000_000_000;
 pub const MAX_ACTORS: usize = 32;
+pub static TRACE_RNG: std::sync::atomic::AtomicBool = std::sync::atomic::AtomicBool::new(false);
 
 pub struct EnvState {
     /// frozen wall clock (absolute, ns since unix epoch)
@@ -96,12 +97,32 @@ fn splitmix64(mut z: u64) -> u64 {
     z ^ (z >> 31)
 }
 
+#[inline]
+fn buf_len_tag(n: usize) -> usize {
+    n
+}
+
 /// Called by the interposed `getrandom`. Returns false when entropy is not owned on this thread.
 pub fn hook_fill_random(buf: &mut [u8]) -> bool {
     with_env(|e| match e {
         None => false,
         Some(e) => {
             let a = ACTOR.try_with(|c| c.get()).unwrap_or(0);
+            if TRACE_RNG.load(Ordering::Relaxed) {
+                let name = std::thread::current().name().unwrap_or("?").to_string();
+                eprintln!("RNG thread={name} actor={a} n={} len={}", e.rng[a].load(Ordering::SeqCst), buf.len());
+            }
+            if buf.len() >= 32 {
+                // Seeds of lazily initialised process-global or per-thread generators (ahash, rand::thread_rng):
+                // they are requested once, by whichever task happens to need them first in the process. Serve a
+                // constant stream that does not consume any per-actor counter, so that executions stay a function
+                // of their schedule.
+                for (i, chunk) in buf.chunks_mut(8).enumerate() {
+                    let v = splitmix64(0xC0FFEE ^ ((buf_len_tag(chunk.len()) as u64) << 32) ^ i as u64).to_le_bytes();
+                    chunk.copy_from_slice(&v[..chunk.len()]);
+                }
+                return true;
+            }
             for chunk in buf.chunks_mut(8) {
                 let n = e.rng[a].fetch_add(1, Ordering::SeqCst);
                 let v = splitmix64(((a as u64) << 48) ^ n).to_le_bytes();
